@@ -284,6 +284,9 @@ func ToAllocation(protoAlloc *Allocation) (alloc *channel.Allocation, err error)
 	if err != nil {
 		return nil, errors.WithMessage(err, "backends")
 	}
+	if len(alloc.Backends) != len(protoAlloc.GetAssets()) {
+		return nil, errors.Errorf("%d backends for %d assets", len(alloc.Backends), len(protoAlloc.GetAssets()))
+	}
 	alloc.Assets = make([]channel.Asset, len(protoAlloc.GetAssets()))
 	for i := range protoAlloc.GetAssets() {
 		alloc.Assets[i] = channel.NewAsset(alloc.Backends[i])
@@ -303,6 +306,9 @@ func ToAllocation(protoAlloc *Allocation) (alloc *channel.Allocation, err error)
 		}
 	}
 	alloc.Balances = ToBalances(protoAlloc.GetBalances())
+	if err := alloc.Valid(); err != nil {
+		return nil, errors.WithMessage(err, "invalid allocation")
+	}
 	return alloc, nil
 }
 
